@@ -86,7 +86,7 @@ func NewTransport(
 
 	var dialFn transport_quic.DialFunc
 	if addrParser != nil {
-		dialFn = func(ctx context.Context, addr string) (*quic.Conn, net.Addr, error) {
+		dialFn = func(ctx context.Context, rpeer peer.ID, addr string) (*quic.Conn, net.Addr, error) {
 			// parse the addr to a net.Addr
 			na, err := addrParser(addr)
 			if err != nil {
@@ -101,7 +101,7 @@ func NewTransport(
 				tpt.quicTpt,
 				tpt.GetIdentity(),
 				na,
-				"",
+				rpeer,
 			)
 			if err != nil {
 				return nil, na, err
